@@ -8,7 +8,8 @@ from ..driver import ddmin_list
 
 CONFIG = {
     "level": "exploration",
-    "level_text": ("Seeded exploration of random trees (empty directories, directories with more than ten children, nested "
+    "level_text": ("Seeded exploration of random trees (empty directories, directories with more than ten and, rarely, with 65..518 "
+                   "children, nested "
                    "histories, ignored entries) sealed with 1..6 formats under every directory-enumeration profile (sorted, "
                    "reversed, shuffled per call) and short-read profile. Every <directoryhash>/<roothash> value written by "
                    "create and every value printed by `verify -dh -co` is compared with an independent recursive "
@@ -39,12 +40,22 @@ def generate(rng, tier):
         for i in range(rng.randint(11, 16)):
             rel = (big + "/" if big else "") + f"many{i:02d}.dat"
             tree[rel] = {"t": "f", "c": gen.unique_content(rng, 4)}
+    wide_fmt = None
+    if rng.random() < 0.04:
+        # a folder with very many children (an image sequence): more digests than fit into any fixed-size block
+        wide_fmt, count = rng.choice([("c4", 65), ("c4", 130), ("sha1", 205), ("md5", 257), ("xxh128", 258), ("xxh64", 513)])
+        count += rng.randrange(0, 6)
+        wide = rng.choice([""] + gen.tree_dirs(tree))
+        for i in range(count):
+            tree[(wide + "/" if wide else "") + "frame_%05d.dpx" % i] = {"t": "f", "c": {"gen": [rng.getrandbits(40), 9]}}
     env["tree"] = tree
     ops = []
     nested = scen.subroots_of(tree, rng, 2) if rng.random() < 0.35 else []
     for sub in nested:
         ops.append(scen.cmd("create", scen.root_arg(sub), *gen.fmt_args(gen.pick_formats(rng, 1, 2))))
     fmts = list(observe.FORMATS) if rng.random() < 0.1 else gen.pick_formats(rng, 1, 3)
+    if wide_fmt and wide_fmt not in fmts:
+        fmts = sorted(fmts[:1] + [wide_fmt])
     args = gen.fmt_args(fmts + ([rng.choice(fmts)] if rng.random() < 0.15 else []))  # sometimes a format is named twice
     if rng.random() < (0.5 if nested else 0.25):
         args += ["-i", rng.choice(["*.xml", "notes", "z9", "sub/", "d1", "*.jpg"])]
